@@ -17,6 +17,9 @@ namespace c14
     void Clock::begin_call()
     {
         ticks = 0;
+        blocks = 0;
+        block_exceeded = false;
+        block_pc = nullptr;
         exceeded_site = -1;
         for (int i = 0; i < n_sites; ++i)
             sites[i].in_call = 0;
@@ -45,6 +48,21 @@ extern "C" void xsimd_verif_loop_tick(const char* file, int line)
     if (c.armed && c.ticks > c.budget)
     {
         c.exceeded_site = (int)(s - c.sites);
+        c.armed = false;
+        longjmp(c.jb, 1);
+    }
+}
+
+// called by the compiler-inserted instrumentation at the head of every basic block of the kernels' translation units
+extern "C" void __sanitizer_cov_trace_pc()
+{
+    c14::Clock& c = c14::tick_clock();
+    ++c.blocks;
+    ++c.blocks_total;
+    if (c.armed && c.blocks > c.block_budget)
+    {
+        c.block_exceeded = true;
+        c.block_pc = __builtin_return_address(0);
         c.armed = false;
         longjmp(c.jb, 1);
     }
